@@ -37,6 +37,8 @@ func allProps() []*PropSpec {
 		propC18(),
 		propC15(),
 		propC14(),
+		propC10(),
+		propC09(),
 	}
 }
 
@@ -193,6 +195,71 @@ func propC14() *PropSpec {
 				js = append(js, Job{Pkg: p[0], Fn: p[1], N: 0, Desc: "symbolic fault position/mode on concrete documents"})
 			}
 			js = append(js, Job{Pkg: "json", Fn: "VerifJSONIOTwin", N: 0, ExpectFail: true, Desc: "vacuity twin"})
+			return js
+		},
+	}
+}
+
+func propC10() *PropSpec {
+	return &PropSpec{
+		ID:   "C10",
+		Rule: "one case = one feasible path of an entry point on ALL byte strings of the stated length (256 values per byte, caller-owned slice with one spare byte of capacity): no panic outcome, no step-budget overrun (hang), guard byte restored, error => original data; non-trivial = completes with a distinct symbolic output",
+		Assumptions: []string{"step budget 5e6 SSA instructions per path stands for 'terminates' (longest observed path is < 1e5)", "empty registry for embedded content"},
+		Outside:     []string{"inputs longer than the stated n (in particular: time proportional to input size, memory growth, recursion limits are asymptotic claims that no bound reaches)", "option values other than the defaults in the *Total harnesses", "template-shaped inputs are covered by the harnesses of C03-C06 (a panic there is a violation of those checks as well)"},
+		Stubs:       []string{"fmt.Sprintf/Errorf run natively on concrete arguments (error messages)", "sync.Pool without per-P cache", "sort.Slice as stable insertion sort", "parse.NewError/NewErrorLexer opaque"},
+		Jobs: func(tier string) []Job {
+			var js []Job
+			q := tier == "quick"
+			pick := func(a, b []int) []int {
+				if q {
+					return a
+				}
+				return b
+			}
+			js = append(js, jobsN(".", "VerifNumberTotal", pick(rng(0, 4), rng(0, 6)), "Number(arbitrary bytes, prec -1..20)")...)
+			js = append(js, jobsN(".", "VerifDecimalTotal", pick(rng(0, 5), rng(0, 7)), "Decimal(arbitrary bytes, prec -1..20)")...)
+			js = append(js, jobsN(".", "VerifDataURITotal", pick(rng(0, 7), rng(0, 8)), "DataURI(arbitrary bytes)")...)
+			js = append(js, jobsN("json", "VerifJSONTotal", pick(rng(0, 5), rng(0, 6)), "json.Minify(arbitrary bytes) + re-acceptance")...)
+			js = append(js, jobsN("json", "VerifJSONBytesContract", pick(rng(0, 4), rng(0, 5)), "(*M).Bytes/String error contract, json")...)
+			js = append(js, jobsN("json", "VerifJSONBytesTemplate", pick(rng(1, 4), rng(1, 5)), "(*M).Bytes error contract on [<n bytes><bad suffix>")...)
+			js = append(js, jobsN("xml", "VerifXMLTotal", pick(rng(0, 5), rng(0, 6)), "xml.Minify(arbitrary bytes) + re-acceptance")...)
+			js = append(js, jobsN("xml", "VerifXMLBytesContract", pick(rng(0, 5), rng(0, 6)), "(*M).Bytes error contract, xml")...)
+			js = append(js, jobsN("css", "VerifCSSTotal", pick(rng(0, 2), rng(0, 3)), "css.Minify(arbitrary bytes)")...)
+			js = append(js, jobsN("html", "VerifHTMLTotal", pick(rng(0, 3), rng(0, 4)), "html.Minify(arbitrary bytes)")...)
+			js = append(js, jobsN("svg", "VerifSVGTotal", pick(rng(0, 4), rng(0, 5)), "svg.Minify(arbitrary bytes)")...)
+			js = append(js, jobsN("js", "VerifJSTotal", pick(rng(0, 2), rng(0, 3)), "js.Minify(arbitrary bytes)")...)
+			js = append(js, Job{Pkg: ".", Fn: "VerifTotalTwin", N: 2, ExpectFail: true, Desc: "vacuity twin: an index panic must be reported"})
+			return js
+		},
+	}
+}
+
+func propC09() *PropSpec {
+	return &PropSpec{
+		ID:   "C09",
+		Rule: "one case = one feasible path: (a) arbitrary bytes -> if the minifier returns nil, its output fed to the same minifier returns nil again; (b) reference-valid input -> output valid per the independent reference recogniser (RFC 8259 recogniser, reference XML reader); non-trivial = completes with a distinct symbolic output",
+		Assumptions: []string{"(b) uses the assumptions of C07/C06 harnesses"},
+		Outside:     []string{"real-world sized documents, fuzz corpora, benchmark files, byte-level mutations of those: whole-document runs are outside any symbolic bound and are not replaced by concrete runs (not applicable to this technique)", "independent parsers for JS/CSS/HTML (none is written): for those languages only re-acceptance on small inputs is decided"},
+		Stubs:       []string{"as C07/C06/C10"},
+		Jobs: func(tier string) []Job {
+			var js []Job
+			q := tier == "quick"
+			pick := func(a, b []int) []int {
+				if q {
+					return a
+				}
+				return b
+			}
+			js = append(js, jobsN("json", "VerifJSONReaccept", pick(rng(0, 5), rng(0, 6)), "json: accepted => output accepted again (arbitrary bytes)")...)
+			js = append(js, jobsN("xml", "VerifXMLReaccept", pick(rng(0, 5), rng(0, 6)), "xml: accepted => output accepted again (arbitrary bytes)")...)
+			js = append(js, jobsN("json", "VerifJSONValue", pick(rng(1, 4), rng(1, 5)), "json: RFC-valid input => RFC-valid output (reference recogniser)")...)
+			js = append(js, jobsN("xml", "VerifXMLText", pick(rng(0, 2), rng(0, 3)), "xml: well-formed input => well-formed output (reference reader)")...)
+			js = append(js, jobsN("xml", "VerifXMLAttr", pick(rng(0, 3), rng(0, 4)), "xml: well-formed input => well-formed output (reference reader)")...)
+			js = append(js, jobsN("css", "VerifCSSReaccept", pick(rng(0, 2), rng(0, 3)), "css: accepted => output accepted again (arbitrary bytes)")...)
+			js = append(js, jobsN("svg", "VerifSVGReaccept", pick(rng(0, 3), rng(0, 4)), "svg: accepted => output accepted again (arbitrary bytes)")...)
+			js = append(js, jobsN("html", "VerifHTMLReaccept", pick(rng(0, 3), rng(0, 3)), "html: accepted => output accepted again (arbitrary bytes)")...)
+			js = append(js, jobsN("js", "VerifJSReaccept", pick(rng(0, 2), rng(0, 3)), "js: accepted => output accepted again (arbitrary bytes)")...)
+			js = append(js, Job{Pkg: "json", Fn: "VerifJSONTwin", N: 3, ExpectFail: true, Desc: "vacuity twin"})
 			return js
 		},
 	}
